@@ -139,6 +139,7 @@ H(h_c12_tree_move) {
     again.inner_pdu(new UDP(1, 2));
     again = std::move(moved);
     vp_assert(forest_ok(&again) && depth_of(&again) == 3, "move assignment transfers the child chain and frees the target's old one");
+    vp_assert(forest_ok(&moved), "whatever a moved-from layer still owns has its parent link pointing at it");
     *static_cast<IPSecESP*>(a) = again;                       // reuse the moved-from object
     vp_assert(forest_ok(a) && depth_of(a) == 3, "a moved-from layer can be assigned and used again");
     delete a;
@@ -169,6 +170,10 @@ H(h_c12_packet_wrapper) {
     vp_assert(p1.pdu() == 0 && p3.pdu() == a, "moving a Packet transfers the tree");
     p2 = p3;                                                // copy-assign over an owning packet: old tree freed
     vp_assert(p2.pdu() != p3.pdu() && same_chain(p2.pdu(), p3.pdu()), "copy-assigning a Packet clones and frees the previous tree");
+    Packet p4(build1(), Timestamp(), Packet::own_pdu());
+    p4 = std::move(p2);                                     // move-assign over an owning packet: old tree freed exactly once
+    vp_assert(p4.pdu() != 0 && same_chain(p4.pdu(), p3.pdu()) && forest_ok(p4.pdu()), "move-assigning a Packet transfers the tree");
+    vp_assert(p2.pdu() == 0 || p2.pdu() != p4.pdu(), "after a move assignment the two packets do not own the same tree");
     PDU* raw = p3.release_pdu();
     vp_assert(raw == a && p3.pdu() == 0, "release_pdu hands the tree to the caller");
     delete raw;
